@@ -40,6 +40,15 @@ CLAIMED = {
                      'scheduled at file-system-call granularity, checked at quiescence.',
                 note='trusted: the independent parser (checks/bundleparse.py), SimFS; histories and schedules are sampled',
                 technique='deterministic simulation: model-based history checking with an independent bundle parser; seeded schedule search for concurrent bundle writers'),
+    'C15': dict(level='exploration', ref='DESIGN.md 6.8',
+                text='seeded search over schedules of the real ThreadPool (map/imap/starmap/starcall, pool and module-level '
+                     'forms, both result modes, pool sizes 1-7, 0-6 items, seeded failing positions): worker threads are the '
+                     'real ThreadWorker threads adopted by the baton scheduler, queues are scheduler-aware, so arbitrary '
+                     'completion orders and arbitrarily stalled workers are produced; oracle: one result per input in input '
+                     'order, own exception object per failing item (or raised after an in-order prefix), each item run at most '
+                     'once, the call terminates.',
+                note='trusted: SimQueue has queue.Queue semantics; pre-emption only at queue operations and explicit item steps',
+                technique='deterministic simulation: baton-passing scheduler adopting the pool\'s real worker threads, seeded completion-order search'),
 }
 
 NA = {
@@ -55,7 +64,7 @@ NA = {
     'C18': 'well-formedness/escaping of responses is a function of the request bytes',
 }
 
-PENDING = ['C08', 'C11', 'C12', 'C13', 'C15', 'C20']
+PENDING = ['C08', 'C11', 'C12', 'C13', 'C20']
 
 
 def main():
